@@ -520,6 +520,16 @@ def _register_families():
             + K.ScaleKernel(K.LinearKernel())
         return _exact(v, M.LinearMean(2), k)
 
+    @family("exact/prior_by_name", quick=True)
+    def _(v):
+        # priors registered by parameter NAME (string form of Module.register_prior) on raw parameters, by user code
+        k = K.ScaleKernel(K.RBFKernel(ard_num_dims=2))
+        k.register_prior("raw_outputscale_prior", P.NormalPrior(v.pick(0.0, 0.2), v.pick(1.0, 0.8)), "raw_outputscale")
+        k.base_kernel.register_prior("raw_lengthscale_prior", P.NormalPrior(v.pick(0.5, 0.1), v.pick(0.6, 0.9)), "raw_lengthscale")
+        mean = M.ConstantMean()
+        mean.register_prior("raw_constant_prior", P.NormalPrior(v.pick(0.1, 0.0), v.pick(0.5, 0.7)), "raw_constant")
+        return _exact(v, mean, k)
+
     @family("exact/zero_mean_loo")
     def _(v):
         return _exact(v, M.ZeroMean(), K.ScaleKernel(K.RBFKernel()), mll="loo")
@@ -683,10 +693,11 @@ def _register_families():
         return Bundle(top, model, lik, X, y, Xs, "exact", {"idx": idx, "idx_s": torch.tensor([[0], [1], [1], [0]])})
 
     for gname, (mean_c, kern_c, width) in {
-        "rbf_grad": (lambda: M.ConstantMeanGrad(), lambda: K.RBFKernelGrad(ard_num_dims=2), 3),
+        # ConstantMeanGrad / ConstantMeanGradGrad register their prior by parameter NAME (string form of register_prior)
+        "rbf_grad": (lambda: M.ConstantMeanGrad(prior=P.NormalPrior(0.3, 0.7)), lambda: K.RBFKernelGrad(ard_num_dims=2), 3),
         "poly_grad": (lambda: M.LinearMeanGrad(2), lambda: K.PolynomialKernelGrad(power=2), 3),
         "matern52_grad": (lambda: M.ConstantMeanGrad(), lambda: K.Matern52KernelGrad(), 3),
-        "rbf_gradgrad": (lambda: M.ConstantMeanGradGrad(), lambda: K.RBFKernelGradGrad(), 5),
+        "rbf_gradgrad": (lambda: M.ConstantMeanGradGrad(prior=P.NormalPrior(0.3, 0.7)), lambda: K.RBFKernelGradGrad(), 5),
         "linear_gradgrad": (lambda: M.LinearMeanGradGrad(2), lambda: K.RBFKernelGradGrad(), 5),
     }.items():
         def fam(v, mean_c=mean_c, kern_c=kern_c, width=width):
@@ -1167,6 +1178,14 @@ def live_caches(top):
     return out
 
 
+def _frozen(pay):
+    """Value snapshot of a payload table (the objects are changed later by the divergence phase)."""
+    fz = Payloads(pay.base)
+    fz.ids = dict(pay.ids)
+    fz.tensors = [t.detach().clone() for t in pay.tensors]
+    return fz
+
+
 class Payloads:
     def __init__(self, base=0):
         self.ids, self.tensors, self.base = {}, [], base
@@ -1193,7 +1212,7 @@ def _numerical(e):
     return any(t in type(e).__name__ or t in str(e) for t in NUMERICAL)
 
 
-def check_savepoint(ctx, fname, seed, ops, mechs=MECHS, driver=None, stale=True, report=True):
+def check_savepoint(ctx, fname, seed, ops, mechs=MECHS, driver=None, stale=True, report=True, diverge=True):
     """Runs the history `ops` on a fresh original, applies the mechanisms, compares.  Returns list of failure keys."""
     torch, gpytorch = _import()
     fails = []
@@ -1292,11 +1311,14 @@ def check_savepoint(ctx, fname, seed, ops, mechs=MECHS, driver=None, stale=True,
         ctx.broke("correspondence", f"family:{fname}", f"observing the ORIGINAL failed at {err_o[0]}: {err_o[1]}\n{err_o[2]}")
         return None
     nontriv = bool(ops)
+    usable = {}
     for mech, r in restored.items():
         desc = f"{fname}|{','.join(ops)}|{mech}"
         obs_r, err_r = observe(r)
         bitwise = 0
         bad, remaining = [], []
+        if err_r is None:
+            usable[mech] = r
         if err_r is not None:
             cls = _blame_class(r.top, None, err_r[2])
             fail(f"{mech}:{cls}:restored-unusable:{err_r[0]}", f"{short} restored by {mech} after {list(ops)}: "
@@ -1317,10 +1339,13 @@ def check_savepoint(ctx, fname, seed, ops, mechs=MECHS, driver=None, stale=True,
                 # only what the transplant repairs is reported as `not-persisted:<Class>.<attr>`
                 cands = _unpersisted_candidates(snap_o, snaps[mech])
                 if cands:
+                    saved = [(mr, a, mr.__dict__.get(a)) for _, mo, mr, a in cands]
                     for _, mo, mr, a in cands:
                         mr.__dict__[a] = copy.deepcopy(mo.__dict__[a])
                     r.top.train(was_training)
                     obs_t, err_t = observe(r)
+                    for mr, a, old in saved:        # undo the transplant: the restored object stays what the mechanism made
+                        mr.__dict__[a] = old
                     remaining = [(k, e_) for k, e_ in bad
                                  if err_t is not None or k not in obs_t or not _close(obs_o[k], obs_t[k])[0]]
                     if len(remaining) < len(bad):
@@ -1363,7 +1388,102 @@ def check_savepoint(ctx, fname, seed, ops, mechs=MECHS, driver=None, stale=True,
                 fail(f"stale-cache-after-load:{fname}:{k}", f"{short}: load_state_dict into a model that had already "
                      f"predicted; its next prediction differs from the loaded model's by {err:.3e} (old caches in effect)",
                      observable=k, err=err, live_caches=live)
+    if diverge and usable:
+        _divergence(ctx, fail, fname, seed, ops, b, usable, obs_o, was_training, pending_init)
     return fails
+
+
+def _mutate(bundle, salt):
+    """Make the object diverge: another state (parameter perturbation, as a load of different values would) and one
+    optimiser step on its own objective."""
+    apply_op(bundle, "setp", salt)
+    apply_op(bundle, "step", salt + 1)
+
+
+def _reference(fname, seed, variant, src):
+    """An independent, newly constructed model carrying `src`'s CURRENT state (shares nothing with anybody)."""
+    ref = build_fresh(fname, seed, salt=11) if variant == 1 else FAMILIES[fname][0](V(0, seed))
+    ref.top.load_state_dict(copy.deepcopy(src.top.state_dict()))
+    ref.top.train(src.top.training)
+    return ref
+
+
+def _cmp_obs(a, b_):
+    """-> list of (key, err) that differ"""
+    out = []
+    for k, v in a.items():
+        if k in b_:
+            ok, err, _ = _close(v, b_[k])
+            if not ok:
+                out.append((k, err))
+    return out
+
+
+def _divergence(ctx, fail, fname, seed, ops, b, usable, obs_o, was_training, pending_init=False):
+    """DIVERGENCE phase.  Right after a round trip copy and original coincide, so state that the copy still reads from
+    the original (a closure bound to the original module, a shared sub-module) is invisible.  Here (1) every restored
+    object is changed (other parameter values + an optimiser step) and must then agree with an independent reference
+    built for ITS OWN current state, while the original's outputs must not move; (2) the original is changed, must
+    agree with its own reference, and the restored objects' outputs must not move."""
+    after = {}
+    for i, (mech, r) in enumerate(usable.items()):
+        try:
+            _mutate(r, 7000 + 13 * i)
+            obs_r, err_r = observe(r)
+            ref = _reference(fname, seed, 1 if mech == "state_dict" else 0, r)
+            obs_f, err_f = observe(ref)
+        except Exception as e:
+            if _numerical(e):
+                ctx.count("divergence_discarded_numerical")
+                continue
+            fail(f"divergence:{fname}:{mech}:error", f"{fname}: changing the {mech}-restored model / building its reference "
+                 f"raised {type(e).__name__}: {str(e)[:200]}", mechanism=mech, phase="divergence")
+            continue
+        if err_r is not None or err_f is not None:
+            e_ = err_r or err_f
+            if any(t in e_[1] for t in NUMERICAL):
+                ctx.count("divergence_discarded_numerical")
+            elif err_r is not None and err_f is None:
+                fail(f"divergence:{fname}:{mech}:error", f"{fname}: the {mech}-restored model, after being changed, fails at "
+                     f"{e_[0]}: {e_[1]} (its reference works)", mechanism=mech, phase="divergence")
+            continue
+        after[mech] = (r, obs_r)
+        ctx.count("divergence_checks")
+        for k, err in _cmp_obs(obs_f, obs_r):
+            fail(f"divergence:{fname}:{mech}:{k}", f"{fname} after {list(ops)}: the {mech}-restored model was changed (new "
+                 f"parameter values + one optimiser step); its {k} differs by {err:.3e} from an independently constructed "
+                 f"model carrying the same state — it still reads state that is not its own", mechanism=mech,
+                 observable=k, err=err, phase="divergence")
+    # the original must not have moved
+    b.top.train(was_training)
+    obs_b, err_b = observe(b)
+    if err_b is None and not pending_init:     # (with a lazy random initialisation pending, obs_o is not a fixed reference)
+        for k, err in _cmp_obs(obs_o, obs_b):
+            fail(f"coupled:{fname}:original-follows-restored:{k}", f"{fname} after {list(ops)}: changing the restored models "
+                 f"({', '.join(after)}) changed the ORIGINAL's {k} by {err:.3e}", observable=k, err=err, phase="divergence")
+    # now the original diverges
+    try:
+        _mutate(b, 9000)
+        obs_b2, err_b2 = observe(b)
+        ref_b = _reference(fname, seed, 0, b)
+        obs_fb, err_fb = observe(ref_b)
+    except Exception as e:
+        if not _numerical(e):
+            ctx.broke("correspondence", f"family:{fname}", f"divergence phase on the original: {type(e).__name__}: {e}")
+        return
+    if err_b2 is None and err_fb is None:
+        for k, err in _cmp_obs(obs_fb, obs_b2):
+            fail(f"divergence:{fname}:original:{k}", f"{fname} after {list(ops)}: after the round trips the ORIGINAL was "
+                 f"changed; its {k} differs by {err:.3e} from an independent model carrying the same state",
+                 observable=k, err=err, phase="divergence")
+    for mech, (r, obs_r) in after.items():
+        obs_r2, err_r2 = observe(r)
+        if err_r2 is not None:
+            continue
+        for k, err in _cmp_obs(obs_r, obs_r2):
+            fail(f"coupled:{fname}:{mech}:restored-follows-original:{k}", f"{fname} after {list(ops)}: changing the ORIGINAL "
+                 f"changed the {mech}-restored model's {k} by {err:.3e}", mechanism=mech, observable=k, err=err,
+                 phase="divergence")
 
 
 def _unpersisted_candidates(snap_o, snap_r):
@@ -1484,8 +1604,8 @@ def _driver_lines(driver, fname, seed, ops, b, restored, stale_tree=None):
         # load into a target that had already predicted: the model must say which caches survive (none)
         tU, live_before, sdU, live_after = stale_tree
         driver.append(("RT", fname, ops, "RT g " + " ".join(tT) + " | " + " ".join(tU),
-                       {"keys": list(sdU.keys()), "pay": pay, "sdU": sdU, "live": live_after,
-                        "live_before": live_before}))
+                       {"keys": list(sdU.keys()), "pay": _frozen(pay), "sdU": {k: v.detach().clone() for k, v in sdU.items()},
+                        "live": live_after, "live_before": live_before}))
     elif "state_dict" in restored:
         # (no stale-cache target for this save point) the freshly constructed target after the load
         f = restored["state_dict"]
@@ -1493,7 +1613,8 @@ def _driver_lines(driver, fname, seed, ops, b, restored, stale_tree=None):
         tU = tree_tokens(f.top, payU)
         sdU = f.top.state_dict()
         driver.append(("RT", fname, ops, "RT g " + " ".join(tT) + " | " + " ".join(tU),
-                       {"keys": list(sdU.keys()), "pay": pay, "sdU": sdU, "live": live_caches(f.top)}))
+                       {"keys": list(sdU.keys()), "pay": _frozen(pay), "sdU": {k: v.detach().clone() for k, v in sdU.items()},
+                        "live": live_caches(f.top)}))
 
 
 def _run_driver(ctx, driver):
@@ -1555,9 +1676,12 @@ def _check_table_against(ctx, top, seen_unknown):
         known = {q for _, q, _ in d["eff_regs"]} | set(d["eff_init_attrs"]) | set(d["eff_mut_attrs"]) | set(d["memo"])
         names = list(m._parameters) + list(m._buffers) + list(m._modules) + \
             ([] if d["foreign_base"] else [k for k in m.__dict__ if k not in TORCH_INTERNAL and k != "training"])
+        runtime_registered = set(getattr(m, "_priors", {})) | set(getattr(m, "_constraints", {}))
         for a in names:
             if a in known or any(_match(q, a) for q in known if ("*" in q or "#" in q) and q != "*"):
                 continue
+            if a in m._modules and a in runtime_registered:
+                continue        # registered on the instance through the public registrar API (register_prior / _constraint)
             # children registered through the generic registrar API (register_prior / register_constraint names are
             # covered above); anything else is unknown to the translator
             key = f"{n}.{a}"
@@ -1609,7 +1733,8 @@ def _plan(ctx):
         else:
             pts = list(range(len(canon) + 1))
         for k in pts:
-            plan.append((fname, seed, canon[:k], MECHS))
+            # quick: the divergence phase at one save point per family (+ the random history); thorough: everywhere
+            plan.append((fname, seed, canon[:k], MECHS if (not ctx.quick or k == 4) else MECHS + ("nodiverge",)))
         nrand = (1 if quick else 0) if ctx.quick else 5
         for j in range(nrand):
             h = random_history(rng, rng.randrange(2, 7 if ctx.quick else 9))
@@ -1645,7 +1770,9 @@ def correspondence(ctx, want_driver=True):
                 continue
         # driver lines only for a subset of save points (every family: the longest prefix)
         dl = driver if (driver is not None and (len(ops) in (0, 4) or not ctx.quick)) else None
-        res = check_savepoint(ctx, fname, seed, ops, mechs, driver=dl)
+        dv = "nodiverge" not in mechs
+        mechs = tuple(m for m in mechs if m != "nodiverge")
+        res = check_savepoint(ctx, fname, seed, ops, mechs, driver=dl, diverge=dv)
         if res is not None:
             ok_fam.add(fname)
         fam_time[fname] = fam_time.get(fname, 0.0) + (T() - t1)
